@@ -440,7 +440,7 @@ def oracles_ubx(line, real_out):
     exp, pieces = spec_ubx(line)
     ft = features_ubx(line)
     recs = []
-    simple = not (ft['restart'] or ft['midfilter'] or ft['empty'])
+    simple = not (ft['restart'] or ft['empty'])         # (filter changes in mid-stream: the reference tracks the filter in force)
     real_t, exp_t = real_out.split(' '), exp.split(' ')
     data = lambda ts: [t for t in ts if '/' in t]
     rx = lambda ts: [t for t in ts if t.startswith('rx=')]
@@ -451,7 +451,7 @@ def oracles_ubx(line, real_out):
                      'observed': ' '.join(data(real_t) + rx(real_t))[:400],
                      'what': 'well-formed frames delivered exactly once, in order, intact; counter = number of well-formed frames'})
     if simple:
-        occ = occurrence_check(line, real_out)
+        occ = occurrence_check(line, real_out) if not ft['midfilter'] else None
         ok = occ is None and data(real_t) == data(exp_t) and marks(real_t) == marks(exp_t)
         recs.append({'prop': 'C03', 'ok': ok, 'expected': exp[:400], 'observed': (occ or real_out)[:400],
                      'what': 'only checksum-valid occurrences are delivered; one error marker per bad frame; a long header hides nothing'})
@@ -659,8 +659,16 @@ def with_copies(rng, ln):
     changes re-use ONE list object (H instead of F)"""
     kind, ops = ln.split('|', 1)
     ops = ops.split(';')
-    if kind == 'ubx' and rng.random() < 0.5:
+    if kind == 'ubx' and rng.random() < 0.6:
         ops = [('H' + o[1:]) if o[0] == 'F' and len(o) > 1 else o for o in ops]
+        first = next((o for o in ops if o[0] == 'H'), None)
+        feeds = [k for k, o in enumerate(ops) if o[0] in FEED]
+        if first and len(feeds) > 1:
+            # the one list, edited in place to other class/ids - as many as before, or more, or fewer - and passed again
+            cnt = first.count(',') + 1
+            m = rng.choice([cnt, cnt, cnt + 1, max(1, cnt - 1)])
+            new = 'H' + ','.join(f'{c}:{i}' for c, i in (rng.sample(CIDS, min(m, len(CIDS)))))
+            ops.insert(rng.choice(feeds[1:]), new)
     if rng.random() < 0.7 or kind != 'ubx':
         for _ in range(rng.choice([1, 1, 2])):
             ops.insert(rng.randrange(len(ops) + 1), f'C{rng.randrange(3)}')
